@@ -17,6 +17,8 @@ MCWins == << [lo |-> 4,  hi |-> 8,  step |-> 2],
              [lo |-> 5,  hi |-> 9,  step |-> 2],
              [lo |-> 11, hi |-> 15, step |-> 2],
              [lo |-> 1,  hi |-> 3,  step |-> 2] >>
-\* the mutants are refuted on a sub-alphabet already (windows 1, 2, 3, 5)
-MCWinsSmall == << MCWins[1], MCWins[2], MCWins[3], MCWins[5] >>
+\* Sound variants and mutants are checked in ONE run (TLC -continue).  The mutants are refuted on the
+\* sub-alphabet 0, 1, 2, 3, 5 already, and the latched mode without any memo: keeps the number of reported
+\* counterexamples small.
+MutantAlphabet == Sound \/ (win \in {0, 1, 2, 3, 5} /\ (ModeRead = "construct" => Key = "none"))
 =============================================================================
